@@ -2,6 +2,7 @@
 package memreplay
 
 import (
+	"bytes"
 	"context"
 	"encoding/json"
 	"fmt"
@@ -50,9 +51,13 @@ type behaviour struct {
 	HeavyDef bool   `json:"heavydef"` // run it with the default allocator all the same
 }
 
-func guestModule(min uint32, max *uint32) []byte {
+func guestModule(min uint32, max *uint32) []byte { return guestModuleKind(min, max, false) }
+
+// guestModuleKind: shared = the memory is declared shared (threads feature; needs a maximum).
+func guestModuleKind(min uint32, max *uint32, shared bool) []byte {
 	m := wb.New()
 	m.Memory(min, max, "mem")
+	m.M.MemorySection.IsShared = shared
 	i32, i64 := []wasm.ValueType{wb.I32}, []wasm.ValueType{wb.I64}
 	m.AddFunc(wb.Func{Params: i32, Results: i32, Body: wb.Cat(wb.LocalGet(0), wasm.OpcodeMemoryGrow, 0), Export: "grow"})
 	m.AddFunc(wb.Func{Results: i32, Body: wb.Cat(wasm.OpcodeMemorySize, 0), Export: "size"})
@@ -140,7 +145,18 @@ func replayOne(id int, b *behaviour) common.Result {
 	limit := uint32(b.Cfg.Limit) * scale
 	bin := guestModule(min, maxp)
 	for _, engine := range []string{"interpreter", "compiler"} {
-		for _, alloc := range []string{"default", "guard"} {
+		for _, alloc := range []string{"default", "guard", "default+shared"} {
+			shared := alloc == "default+shared"
+			if shared {
+				// the same behaviour on a memory declared shared (Memory.tla does not distinguish: sizes, growth and contents follow
+				// the same rules; the buffer is allocated for the maximum at once, so page scale and accepted declarations only)
+				if maxp == nil || b.Scale != 1 || !b.Accepted || b.Cfg.Max > b.Cfg.Limit || b.Cfg.Max > 64 || b.Heavy {
+					continue
+				}
+				bin = guestModuleKind(min, maxp, true)
+			} else {
+				bin = guestModule(min, maxp)
+			}
 			if alloc == "guard" && b.Cfg.CapFromMax && !b.Heavy {
 				continue // capacity hints are meaningless to the guard allocator; covered by default
 			}
@@ -152,12 +168,19 @@ func replayOne(id int, b *behaviour) common.Result {
 				cfg = wazero.NewRuntimeConfigCompiler()
 			}
 			cfg = cfg.WithMemoryLimitPages(limit).WithMemoryCapacityFromMax(b.Cfg.CapFromMax)
+			if shared {
+				cfg = cfg.WithCoreFeatures(api.CoreFeaturesV2 | experimental.CoreFeaturesThreads)
+			}
 			rt := wazero.NewRuntimeWithConfig(ctx, cfg)
 			ictx := ctx
 			if alloc == "guard" {
 				ictx = experimental.WithMemoryAllocator(ctx, guard.New())
 			}
 			mod, err := rt.InstantiateWithConfig(ictx, bin, wazero.NewModuleConfig().WithName("target"))
+			if shared && err != nil { // acceptance of a shared declaration is not what is being compared here
+				rt.Close(ctx)
+				continue
+			}
 			pre := fmt.Sprintf("engine=%s;alloc=%s;decl#", engine, alloc)
 			if (err == nil) != b.Accepted {
 				big := "small"
@@ -278,6 +301,15 @@ func runHist(res *common.Result, b *behaviour, engine, alloc string, mod, caller
 			want := uint64(s.Exp.Prev) * scale * 65536
 			if got := uint64(mem.Size()); got != want {
 				fail("bytes", fmt.Sprintf("api.Memory.Size() = %d, the model says %d bytes", got, want))
+			}
+		case "happend":
+			// a view of the last bytes of the memory, appended to by the host: a page and a bit of 0x2d
+			size := uint64(mem.Size())
+			if n := uint64(8); size >= n {
+				if view, ok := mem.Read(uint32(size-n), uint32(n)); ok {
+					view = append(view, bytes.Repeat([]byte{0x2d}, 65536+16)...)
+					_ = view
+				}
 			}
 		case "gput", "hput", "gget", "hget":
 			a, expressible := addrOf(b, pages, s.Op.Base, 0)
